@@ -1196,6 +1196,7 @@ pub fn run(ctx: &mut Ctx, args: &Args) {
     // directed: the IDEF-retention question (instance.rs setup() resizes `instructions` without clear)
     if ctx.shard.0 == 0 && !tsan {
         synth::idef_probe(ctx, &fonts);
+        synth::cvar_probe(ctx, &fonts);
     }
 }
 
